@@ -10,6 +10,9 @@ Python function ↔ definition here (all over exact rationals `Rat`):
 * `_w_update`, `_u_update`                                    ↔ `wUpdate`, `uUpdate` (+ guards `wUpdate?`, `uUpdate?`)
 * the loop of `fit`, its `fixed_w / fixed_u` flags, the inferred `max_hye_size`, the final division
                                                               ↔ `emStep`, `emLoop`, `finish`, `fit`
+* `fit(tolerance=, check_convergence_every=)`: the convergence test, `break`, `training_iter`,
+  `tolerance_reached`                                         ↔ `Stop`, `normLt`, `converged`, `checkAt`, `stopNow`,
+                                                                `loopFrom`, `emRun`, `fitRun`, `Run`
 
 Arrays are total index functions (`Vec = Nat → Rat`, `Mat = Nat → Nat → Rat`) together with their
 dimensions; numpy's `@`, `*`, `.sum` become the index sums `sumTo`.  A hyperedge is the list of its
@@ -192,12 +195,69 @@ def emStep (d : Data) (fixedU fixedW : Bool) (ru rw : Mat) (p : Params) : Params
   let u' := if fixedU then p.u else toRows d.N d.K (uUpdate d (matOf p.u) (matOf w') ru)
   { u := u', w := w' }
 
-/-- `for it in range(n)` (no `tolerance`: the stopping rule is off by default) -/
+/-- the state after `n` passes of the loop body (no stopping rule: `tolerance=None`, the default) -/
 def emLoop (d : Data) (fixedU fixedW : Bool) (ru rw : Mat) : Nat → Params → Params
   | 0, p => p
   | n + 1, p => emStep d fixedU fixedW ru rw (emLoop d fixedU fixedW ru rw n p)
 
-/-- after the loop: `w /= C()` when `w` was inferred, else `u /= sqrt(C())` when `u` was inferred -/
+/-! ### early stopping: `fit(..., tolerance=tol, check_convergence_every=every)` -/
+
+/-- the two arguments of the stopping rule (`tolerance is not None`) -/
+structure Stop where
+  tol : Rat
+  every : Nat
+
+/-- `np.linalg.norm(x - y) ** 2` for `n × m` arrays (Frobenius norm: the sum of the squared entries) -/
+def sqDist (n m : Nat) (x y : List (List Rat)) : Rat :=
+  sumTo n fun i => sumTo m fun a => (matOf x i a - matOf y i a) * (matOf x i a - matOf y i a)
+
+/-- `np.linalg.norm(x - y) / s < tol`, decided without the square root: the norm is `≥ 0`, so the test fails for
+`tol ≤ 0` and is `‖x − y‖² < (tol·s)²` otherwise (`C15_stop_rule` states the equivalence over `ℝ`) -/
+def normLt (n m : Nat) (x y : List (List Rat)) (s : Nat) (tol : Rat) : Bool :=
+  decide (0 < tol) && decide (sqDist n m x y < (tol * (s : Rat)) * (tol * (s : Rat)))
+
+/-- `converged = norm(self.w - old_w) / self.K < tolerance and norm(self.u - old_u) / num_nodes < tolerance` -/
+def converged (d : Data) (tol : Rat) (p old : Params) : Bool :=
+  normLt d.K d.K p.w old.w d.K tol && normLt d.N d.K p.u old.u d.N tol
+
+/-- `(not it % check_convergence_every) and (it > 0)` -/
+def checkAt (every it : Nat) : Bool := it % every == 0 && decide (0 < it)
+
+/-- the block `if tolerance is not None: ...` of iteration `it`: does the loop `break`?
+`p` = parameters after the updates of this iteration, `old` = `(old_u, old_w)` -/
+def stopNow (d : Data) (stop : Option Stop) (it : Nat) (p old : Params) : Bool :=
+  match stop with
+  | none => false
+  | some s => checkAt s.every it && converged d s.tol p old
+
+/-- how the training loop was left: the parameters, the last value of the loop variable `it`
+(`training_iter`), and `tolerance_reached` -/
+structure Run where
+  p : Params
+  it : Nat
+  reached : Bool
+
+/-- `for it in range(..)`: `k` iterations left, the next one has index `it`; `step` is the loop body
+(`emStep`), `old` the parameters stored by `old_w, old_u = self.w, self.u` in the previous iteration
+(not read when `it = 0`).  Leaving through `break` keeps `it`; running out leaves `it` at the last index. -/
+def loopFrom (d : Data) (step : Params → Params) (stop : Option Stop) : Nat → Nat → Params → Params → Run
+  | 0, it, p, _ => { p := p, it := it - 1, reached := false }
+  | k + 1, it, p, old =>
+    let p' := step p
+    if stopNow d stop it p' old then { p := p', it := it, reached := true }
+    else loopFrom d step stop k (it + 1) p' p'
+
+/-- the training loop of `fit(n_iter = n, tolerance, check_convergence_every)` started from `p0` -/
+def emRun (d : Data) (fixedU fixedW : Bool) (ru rw : Mat) (stop : Option Stop) (n : Nat) (p0 : Params) : Run :=
+  loopFrom d (emStep d fixedU fixedW ru rw) stop n 0 p0 p0
+
+/-- with a tolerance, `it % check_convergence_every` raises `ZeroDivisionError` for `check_convergence_every = 0` -/
+def stopOk : Option Stop → Bool
+  | some s => s.every != 0
+  | none => true
+
+/-- after the loop: `w /= C()` when `w` was inferred, else `u /= sqrt(C())` when `u` was inferred
+(the code reaches these lines from both exits of the loop) -/
 def finish (d : Data) (fixedU fixedW : Bool) (c sqrtC : Rat) (p : Params) : Params :=
   if !fixedW then { u := p.u, w := toRows d.K d.K fun a b => matOf p.w a b / c }
   else if !fixedU then { u := toRows d.N d.K fun i a => matOf p.u i a / sqrtC, w := p.w }
@@ -212,17 +272,25 @@ def fitMaxSize (d : Data) (Dsup : Option Nat) : Option Nat :=
   | none => some (maxSize d)
   | some D => if D < maxSize d then none else some D
 
-/-- `HyMMSBM(u=uSup, w=wSup, max_hye_size=Dsup, u_prior=ru, w_prior=rw).fit(data, n_iter=n)`;
-`u0`, `w0` are the arrays `_init_u`, `_init_w` would draw, `sqrtC` the value of `np.sqrt(C())`.
-Result: `none` = `ValueError`, else (`max_hye_size`, parameters). -/
+/-- the loop of `HyMMSBM(u=uSup, w=wSup, ...).fit(data, n_iter=n, tolerance, check_convergence_every)`;
+`u0`, `w0` are the arrays `_init_u`, `_init_w` would draw -/
+def fitRun (d : Data) (uSup wSup : Option (List (List Rat))) (u0 w0 : List (List Rat)) (ru rw : Mat)
+    (stop : Option Stop) (n : Nat) : Run :=
+  emRun d uSup.isSome wSup.isSome ru rw stop n { u := uSup.getD u0, w := wSup.getD w0 }
+
+/-- `HyMMSBM(u=uSup, w=wSup, max_hye_size=Dsup, u_prior=ru, w_prior=rw).fit(data, n_iter=n, tolerance=..,
+check_convergence_every=..)` (`stop = none` is `tolerance=None`); `sqrtC` is the value of `np.sqrt(C())`.
+Result: `none` = the call raises (`ValueError` for a too small `max_hye_size`, `ZeroDivisionError` for
+`check_convergence_every = 0` with a tolerance), else (`max_hye_size`, parameters). `n ≥ 1` (for `n_iter = 0`
+the code fails on the unbound loop variable). -/
 def fit (d : Data) (uSup wSup : Option (List (List Rat))) (Dsup : Option Nat)
-    (u0 w0 : List (List Rat)) (ru rw : Mat) (sqrtC : Rat) (n : Nat) : Option (Nat × Params) :=
+    (u0 w0 : List (List Rat)) (ru rw : Mat) (sqrtC : Rat) (stop : Option Stop) (n : Nat) : Option (Nat × Params) :=
   match fitMaxSize d Dsup with
   | none => none
   | some D =>
-    let p0 : Params := { u := uSup.getD u0, w := wSup.getD w0 }
-    let p := emLoop d uSup.isSome wSup.isSome ru rw n p0
-    some (D, finish d uSup.isSome wSup.isSome (C (dims 2 D)) sqrtC p)
+    if stopOk stop then
+      some (D, finish d uSup.isSome wSup.isSome (C (dims 2 D)) sqrtC (fitRun d uSup wSup u0 w0 ru rw stop n).p)
+    else none
 
 /-! ## arrays from the wire -/
 
